@@ -543,6 +543,96 @@ fn run_case<H: HK>(case: &C15Case, scratch: &Scratch) -> Result<CaseInfo, Violat
         }
         info.add("rollbacks_concurrent_with_readers", n_rb as u64);
     }
+    // phase C: a rollback racing a blocking commit, both queued behind a live session. The two must serialise:
+    // commit then rollback (the commit is accepted and undone again: the state is the one before) or rollback then
+    // commit (the changeset's base is gone: refused, the state is the one a commit earlier). Afterwards rollback(1)
+    // must restore what that order leaves in the log.
+    {
+        // roots[i] = root after i commits (the store was created empty: all-zero root, then version 0, then the chain)
+        let mut roots: Vec<[u8; 32]> = vec![[0u8; 32], root0];
+        roots.extend(chain.iter().map(|s| s.new_root));
+        let p = chain.len() - n_rb + 1;
+        let cur = sh.db.root();
+        if p >= 1 && cur == roots[p] && roots[p - 1] != cur {
+            let prev = roots[p - 1];
+            let k = [0xDDu8; 32];
+            let b = vec![(k, MOp::Write(Some(Arc::new(vec![2u8, 3]))))];
+            let s0 = sh.db.begin(&[], false).map_err(|f| v(f.sig()))?;
+            let fin = sh.db.finish(s0, &Map::new(), &b, &CommitOpts::default()).map_err(|f| v(f.sig()))?;
+            let new_root = fin.root;
+            let live = sh.db.begin(&[], false).map_err(|f| v(f.sig()))?;
+            let commit_first = case.seed & 1 == 0;
+            let gap = Duration::from_micros(200 + (case.seed >> 8) % 3000);
+            let (shw, shr) = (sh.clone(), sh.clone());
+            let fs = fin.fs;
+            let hw = std::thread::spawn(move || {
+                if !commit_first {
+                    std::thread::sleep(gap);
+                }
+                shw.db.commit_finished(fs).map(|_| ()).map_err(|f| f.sig())
+            });
+            let hr = std::thread::spawn(move || {
+                if commit_first {
+                    std::thread::sleep(gap);
+                }
+                shr.db.rollback(1).map_err(|f| f.sig())
+            });
+            std::thread::sleep(gap * 2 + Duration::from_millis(2));
+            drop(live);
+            let (rw, rr) = super::c14_hang_guard("a commit and a rollback queued behind a live session", 120, move || (hw.join(), hr.join()));
+            let (rw, rr) = match (rw, rr) {
+                (Ok(a), Ok(b)) => (a, b),
+                _ => {
+                    rec.set_yield(false, 0);
+                    return Err(v("a commit / rollback thread panicked outside the guarded call".into()));
+                }
+            };
+            let fin_root = sh.db.root();
+            let what = format!(
+                "a blocking commit and rollback(1) queued behind a live session ({} started first; commit: {}, rollback: {})",
+                if commit_first { "commit" } else { "rollback" },
+                if rw.is_ok() { "accepted".to_string() } else { format!("refused: {}", rw.clone().unwrap_err()) },
+                if rr.is_ok() { "done".to_string() } else { format!("failed: {}", rr.clone().unwrap_err()) },
+            );
+            if let Err(e) = &rr {
+                rec.set_yield(false, 0);
+                return Err(v(format!("{what}: rollback(1) with {p} retained commits failed: {e}")));
+            }
+            // commit -> rollback leaves `cur`; rollback -> (refused) commit leaves `prev`
+            let (want, order) = if rw.is_ok() { (cur, "commit, then rollback") } else { (prev, "rollback, then the refused commit") };
+            if fin_root != want {
+                rec.set_yield(false, 0);
+                return Err(v(format!(
+                    "{what}: the final root {} is not the root {} of the only serial order with this outcome ({order}); root before: {}, a commit earlier: {}, root of the racing changeset: {}",
+                    hx8(&fin_root),
+                    hx8(&want),
+                    hx8(&cur),
+                    hx8(&prev),
+                    hx8(&new_root)
+                )));
+            }
+            // what the log holds afterwards
+            let left = if rw.is_ok() { p } else { p - 1 };
+            let r2 = sh.db.rollback(1);
+            if left >= 1 {
+                if let Err(f) = r2 {
+                    rec.set_yield(false, 0);
+                    return Err(v(format!("{what}: afterwards rollback(1) with {left} retained commits failed: {}", f.sig())));
+                }
+                if sh.db.root() != roots[left - 1] {
+                    rec.set_yield(false, 0);
+                    return Err(v(format!("{what}: afterwards rollback(1) does not restore the state one commit before ({order})")));
+                }
+            } else if r2.is_ok() {
+                rec.set_yield(false, 0);
+                return Err(v(format!("{what}: afterwards rollback(1) succeeded although no commit was left in the log")));
+            }
+            info.bump("rollback_racing_commit");
+            if rw.is_ok() {
+                info.bump("rollback_racing_commit_commit_won");
+            }
+        }
+    }
     rec.set_yield(false, 0);
     let _ = sh.overlapped.load(Ordering::Relaxed);
     let sh = Arc::try_unwrap(sh).map_err(|_| v("INFRA: shared state still referenced".into()))?;
@@ -561,7 +651,7 @@ impl Check for C15 {
     fn rule() -> String {
         "generated thread programs on one handle: R in 1..4 reader threads (begin session; read a stamp set of 8 keys three times with sleeps / yields in between; prove 2 of them; in a third of the sessions two more threads read and prove through the SAME session at once; drop) and W in 1..3 \
          writer threads (begin session, read, finish a changeset rewriting the whole stamp set with a fresh version id plus random keys, then commit - blocking, or non-blocking with retry, as session \
-         changeset or overlay), 4..24 iterations each, followed by a phase with readers and a thread rolling back k commits; schedules are perturbed by seeded yields / sleeps at nomt's lock acquisition \
+         changeset or overlay), 4..24 iterations each, followed by a phase with readers and a thread rolling back k commits, and by a blocking commit and a rollback(1) started on two threads (either first) while a live session makes both wait - they must serialise: accepted-and-undone or rolled-back-and-refused, and the rollback log must hold what that order leaves; schedules are perturbed by seeded yields / sleeps at nomt's lock acquisition \
          points (hook). Oracle: (a) inside one session all stamp reads carry one version id, session.prev_root() is the root of exactly that version, proofs verify against it and confirm the values \
          read; (b) a non-blocking commit attempted while the same thread keeps a session alive hands the changeset back; (c) the successful commits form ONE chain initial root -> ... -> final root \
          (no two successes share a base root, no success off the chain), the final values / reference root equal the fold of exactly those batches, every loser got Err; after k rollbacks the root is \
